@@ -10,7 +10,7 @@ import io
 import numpy as np
 
 from verifkit import losscase as LC
-from verifkit.common import canon_hash, short_exc, tb_tail
+from verifkit.common import bystander, canon_hash, short_exc, tb_tail
 from verifkit.ref import integrate as RI
 from verifkit.ref import loss as RL
 
@@ -36,7 +36,7 @@ def plan(tier):
 def floors(tier):
     f = {"nontrivial": 60, "held:main": 80, "held:catalogue": 25, "counter:gradient_checks": 250, "counter:gradientIV_checks": 100,
          "counter:jac_checks": 100, "counter:fd_crosschecks": 100, "class:obs-permuted": 15, "class:target_param": 20,
-         "class:target_param-permuted": 8, "class:target_state": 30, "class:weights": 25, "class:x0-ndarray-shared": 40, "counter:sibling_calls": 80, "class:weights-zero-mask": 6, "class:weights-1d-single-state": 4,
+         "class:target_param-permuted": 8, "class:target_state": 30, "class:weights": 25, "class:x0-ndarray-shared": 40, "counter:sibling_calls": 80, "counter:prior_calls": 80, "class:weights-zero-mask": 6, "class:weights-1d-single-state": 4,
          "class:single-state": 3}
     for k in RL.KINDS:
         f["class:" + k] = 8
@@ -99,6 +99,7 @@ def run_case(rng, idx, tier, lane, ctx):
         obj = LC.make_loss(c)
         if c.x0_as_array:
             counters["sibling_calls"] = LC.disturb_with_sibling(rng, c)
+        sample["calls_made_before"] = LC.prior_calls(rng, c, obj, counters, k=(0, 2))
     except Exception as e:
         return {"status": "violated", "sample": sample, "counters": counters, "classes": cls,
                 "witnesses": [{"what": "loss constructor raised on a valid case", "loss": c.kind, "error": short_exc(e), "tb": tb_tail(e)}]}
@@ -191,6 +192,13 @@ def run_case(rng, idx, tier, lane, ctx):
                     counters["IV_refused_ambiguous_length"] = counters.get("IV_refused_ambiguous_length", 0) + 1
                 else:
                     bad("sensitivityIV raised", error=short_exc(e), tb=tb_tail(e), target_state=c.target_state)
+    free_b = np.array(LC.free_theta(c, c.theta), dtype=float)
+
+    def _again(obj=obj, free_b=free_b):
+        return [obj.cost(free_b.copy()), obj.residual(free_b.copy())]
+    w_ = bystander(ctx, _again, counters, what="a loss object built and evaluated earlier returns another cost after a different loss object was built and used")
+    if w_:
+        bad(w_.pop("what"), **w_)
     nontriv = bool(np.max(np.abs(g_ref)) > 1000 * tol and nfree >= 2) if nfree else False
     out = {"status": "violated" if wit else "held", "nontrivial": nontriv, "key": canon_hash(sample), "classes": sorted(set(cls)),
            "counters": counters, "sample": sample}
